@@ -15,10 +15,72 @@ import (
 func mkdirAll(p string) error { return os.MkdirAll(p, 0o700) }
 
 // buildChain lets the real publisher (node 0 of w) create n blocks and returns them.
-func buildChain(c *sim.Ctx, w *world, n int) []model.Block {
+func buildChain(c *sim.Ctx, w *world, n int) []model.Block { return buildChainOpt(c, w, n, false) }
+
+// legacyBlock makes, by hand, a block as older publishers signed them (the main chain has some): a transaction
+// whose 64-bit output-hour sum wraps, leaving an output just below 2^64 hours, or - once such an output exists
+// and time has passed - a transaction that spends an input whose accrued hours have passed 2^64 (it counts as
+// zero inside a block).  Today's publisher code never puts these into a block (it applies the rules for single
+// transactions), but every node has to accept them from the publisher's chain.
+func legacyBlock(c *sim.Ctx, w *world) (model.Block, bool) {
+	pub := w.nodes[0]
+	var tx model.Txn
+	ok := false
+	if c.T.Bool("legacy-spend-overflowed") {
+		headTime := pub.m.Head().Head.Time
+		for _, id := range w.ownedUnspents(pub.m) {
+			if _, over, inter := model.AccruedHours(pub.m.Unspent[id], headTime); over && !inter {
+				if tx, ok = w.mkSpendOf(pub.m, []model.Hash{id}, 0); ok {
+					c.Count("probe.legacy_chain_spends_overflowed_input")
+				}
+				break
+			}
+		}
+		if !ok {
+			if tx, ok = w.mkOverflowCombo(pub.m); ok {
+				c.Count("probe.legacy_chain_spends_overflowed_input")
+			}
+		}
+	}
+	if !ok {
+		base, ok2 := w.mkSpend(pub.m, false)
+		if !ok2 {
+			return model.Block{}, false
+		}
+		tx = w.mutate(pub.m, base, mutHourOverflow)
+		ok = true
+	}
+	tm := uint64(time.Now().Unix())
+	if tm <= pub.m.Head().Head.Time {
+		tm = pub.m.Head().Head.Time + 1
+	}
+	b := mkBlock(pub.m, []model.Txn{tx}, tm)
+	signBlock(&b, &w.pubKey)
+	return b, true
+}
+
+func buildChainOpt(c *sim.Ctx, w *world, n int, legacy bool) []model.Block {
 	pub := w.nodes[0]
 	var out []model.Block
 	for tries := 0; len(out) < n && tries < n*6; tries++ {
+		if legacy && c.T.Chance("chain-legacy-block", 1, 5) {
+			time.Sleep(time.Duration(1+c.T.Int("chain-gap", 30000)) * time.Second)
+			if b, ok := legacyBlock(c, w); ok {
+				if v := pub.m.CheckBlock(&b); v.V == model.Accept {
+					if err := pub.v.ExecuteSignedBlock(cBlock(&b)); err != nil {
+						// the node that builds the chain here runs the same block rules as every follower: a block of the
+						// publisher's chain that the rules for blocks accept and a node refuses is what leaves followers
+						// stuck below the publisher's head for good
+						c.Violate("chain-block-refused", "legacy-hours-rule", "a node refuses block %d signed by the publisher although the rules for transactions inside blocks accept it (output-hour sum wraps / an input's accrued hours passed 2^64): %v", b.Head.BkSeq, err)
+						return out
+					}
+					pub.m.Apply(b)
+					out = append(out, b)
+					c.Count("probe.legacy_quirk_block_in_chain")
+				}
+			}
+			continue
+		}
 		ntx := 1 + c.T.Pick("chain-ntx", 4, 2, 1)
 		for i := 0; i < ntx; i++ {
 			tx, ok := w.mkSpend(pub.m, false)
@@ -124,7 +186,10 @@ func runSync(c *sim.Ctx) {
 		nb = t.Range("sync-blocks", 3, 25)
 	}
 	s := &syncSim{c: c, w: w, lastGetB: map[string]uint64{}}
-	s.chain = buildChain(c, w, nb)
+	s.chain = buildChainOpt(c, w, nb, true)
+	if c.Failed() {
+		return
+	}
 	if len(s.chain) < 2 {
 		c.Count("desync.short_chain")
 		return
@@ -226,6 +291,12 @@ func (s *syncSim) step() {
 		}
 		s.give(r, bs, "answer")
 	case 1: // unsolicited / arbitrary selection of real blocks
+		if t.Chance("give-empty", 1, 12) {
+			// a message without blocks: what is left over when a peer splits its answer unevenly
+			c.Count("fault.empty_blocks_message")
+			s.give(r, nil, "empty")
+			return
+		}
 		n := 1 + t.Int("give-n", 5)
 		var bs []model.Block
 		label := "unsolicited"
